@@ -14,6 +14,9 @@ N1  accumulate-by-append loop  ->  list comprehension
     neither IT, COND nor ELT; the loop has no else branch and is not async; the names bound by T are not read
     after the loop in the enclosing function (a comprehension does not leak its variable).  The comprehension
     evaluates IT once, then per element COND and ELT in the same order as the loop.
+
+N2  `match` with value patterns -> if/elif chain;  N3  `with contextlib.suppress(E): B` -> try/except E: pass;
+N4  `for T in itertools.chain(A, B): B` -> one loop per operand (no break, no else).  See the comments at each.
 """
 from __future__ import annotations
 
@@ -119,9 +122,150 @@ class _N1(ast.NodeTransformer):
         return out
 
 
+# ------------------------------------------------------------------------------------------------
+# N2  match statement with value patterns  ->  if / elif chain on a temporary
+#
+#       match SUBJ:                         _match_L = SUBJ
+#           case A.B | 3:  X                if _match_L == A.B or _match_L == 3:  X
+#           case None:     Y                elif _match_L is None:  Y
+#           case _ if G:   Z                elif G:  Z
+#           case _:        W                else:  W
+#
+#     only value patterns (constants, dotted names), None/True/False, `Cls()` (isinstance), `|` of those, and the wildcard `_`
+#     (optionally with a guard) are rewritten; capture / sequence / mapping / class patterns are left alone.
+def _pattern_test(pat, subj_name, at):
+    def subj():
+        return ast.copy_location(ast.Name(id=subj_name, ctx=ast.Load()), at)
+    if isinstance(pat, ast.MatchValue):
+        return ast.copy_location(ast.Compare(left=subj(), ops=[ast.Eq()], comparators=[pat.value]), at)
+    if isinstance(pat, ast.MatchSingleton):
+        return ast.copy_location(ast.Compare(left=subj(), ops=[ast.Is()], comparators=[ast.copy_location(ast.Constant(value=pat.value), at)]), at)
+    if isinstance(pat, ast.MatchOr):
+        tests = [_pattern_test(p, subj_name, at) for p in pat.patterns]
+        if any(t_ is None or t_ is True for t_ in tests):
+            return None
+        return ast.copy_location(ast.BoolOp(op=ast.Or(), values=tests), at)
+    if isinstance(pat, ast.MatchClass) and not pat.patterns and not pat.kwd_patterns:
+        # `case Cls():` is an isinstance test
+        call = ast.Call(func=ast.copy_location(ast.Name(id="isinstance", ctx=ast.Load()), at), args=[subj(), pat.cls], keywords=[])
+        return ast.copy_location(call, at)
+    if isinstance(pat, ast.MatchAs) and pat.pattern is None and pat.name is None:
+        return True  # wildcard
+    return None
+
+
+def _rewrite_match(st: ast.Match):
+    name = f"_match_{st.lineno}"
+    arms = []
+    for case in st.cases:
+        t_ = _pattern_test(case.pattern, name, case.pattern)
+        if t_ is None:
+            return None
+        if t_ is True:
+            t_ = case.guard  # None = unconditional
+        elif case.guard is not None:
+            t_ = ast.copy_location(ast.BoolOp(op=ast.And(), values=[t_, case.guard]), case.pattern)
+        arms.append((t_, case.body))
+    assign = ast.copy_location(ast.Assign(targets=[ast.copy_location(ast.Name(id=name, ctx=ast.Store()), st)], value=st.subject), st)
+    chain: t.List[ast.stmt] = []
+    for test, body in reversed(arms):
+        if test is None:
+            chain = list(body)  # unconditional arm: later arms are unreachable
+        else:
+            node = ast.If(test=test, body=list(body), orelse=chain)
+            ast.copy_location(node, body[0])
+            chain = [node]
+    return [assign] + chain
+
+
+# N3  with contextlib.suppress(E1, E2): BODY   ->   try: BODY  except (E1, E2): pass
+def _rewrite_suppress(st: ast.With):
+    if len(st.items) != 1 or st.items[0].optional_vars is not None:
+        return None
+    ce = st.items[0].context_expr
+    if not (isinstance(ce, ast.Call) and not ce.keywords and ce.args and
+            ((isinstance(ce.func, ast.Attribute) and ce.func.attr == "suppress" and isinstance(ce.func.value, ast.Name)
+              and ce.func.value.id == "contextlib") or (isinstance(ce.func, ast.Name) and ce.func.id == "suppress"))):
+        return None
+    typ = ce.args[0] if len(ce.args) == 1 else ast.copy_location(ast.Tuple(elts=list(ce.args), ctx=ast.Load()), ce)
+    h = ast.ExceptHandler(type=typ, name=None, body=[ast.copy_location(ast.Pass(), st)])
+    ast.copy_location(h, st)
+    return [ast.copy_location(ast.Try(body=list(st.body), handlers=[h], orelse=[], finalbody=[]), st)]
+
+
+# N4  for T in itertools.chain(A, B, ..): BODY   ->   for T in A: BODY;  for T in B: BODY
+#     (only without `break` at that loop level and without else: then the two loops visit the same elements in the same order)
+def _has_break(body) -> bool:
+    stack = list(body)
+    while stack:
+        n = stack.pop()
+        if isinstance(n, ast.Break):
+            return True
+        if isinstance(n, (ast.For, ast.AsyncFor, ast.While, ast.FunctionDef, ast.AsyncFunctionDef, ast.Lambda, ast.ClassDef)):
+            continue
+        stack.extend(ast.iter_child_nodes(n))
+    return False
+
+
+def _rewrite_chain(st: ast.For):
+    it = st.iter
+    if st.orelse or not (isinstance(it, ast.Call) and not it.keywords and len(it.args) >= 2 and
+                         ((isinstance(it.func, ast.Attribute) and it.func.attr == "chain" and isinstance(it.func.value, ast.Name)
+                           and it.func.value.id == "itertools") or (isinstance(it.func, ast.Name) and it.func.id == "chain"))):
+        return None
+    if any(isinstance(a, ast.Starred) for a in it.args) or _has_break(st.body):
+        return None
+    import copy
+    out = []
+    for i, a in enumerate(it.args):
+        body = st.body if i == 0 else copy.deepcopy(st.body)
+        loop = ast.For(target=st.target if i == 0 else copy.deepcopy(st.target), iter=a, body=body, orelse=[], type_comment=None)
+        ast.copy_location(loop, a)
+        out.append(loop)
+    return out
+
+
+class _Stmts(ast.NodeTransformer):
+    """statement-level rewrites N2-N4 (a rewrite may turn one statement into several)"""
+
+    def __init__(self):
+        self.count = 0
+
+    def _list(self, body):
+        out = []
+        for st in body:
+            st = self.generic_visit(st)
+            new = None
+            if isinstance(st, ast.Match):
+                new = _rewrite_match(st)
+            elif isinstance(st, ast.With):
+                new = _rewrite_suppress(st)
+            elif isinstance(st, ast.For):
+                new = _rewrite_chain(st)
+            if new is not None:
+                self.count += 1
+                out.extend(new)
+            else:
+                out.append(st)
+        return out
+
+    def generic_visit(self, node):
+        for field in ("body", "orelse", "finalbody"):
+            sub = getattr(node, field, None)
+            if isinstance(sub, list) and sub and isinstance(sub[0], ast.stmt):
+                setattr(node, field, self._list(sub))
+        for h in getattr(node, "handlers", []) or []:
+            h.body = self._list(h.body)
+        for c in getattr(node, "cases", []) or []:
+            c.body = self._list(c.body)
+        return node
+
+
 def normalise(tree: ast.Module) -> int:
     """rewrites tree in place, returns the number of rewrites"""
+    st = _Stmts()
+    tree.body = st._list(tree.body)
     n1 = _N1()
     tree.body = n1._block(tree.body, set())
     ast.fix_missing_locations(tree)
-    return n1.count
+    return n1.count + st.count
